@@ -596,6 +596,92 @@ theorem refused_directory_offer_touches_nothing (fs fs' : FS) (a : Args) (mode n
               rw [this, h2, h1]
             | ok u2 => simp at h
 
+/-! ### more than one receive per process: the same `args` (Config) object, receive after receive
+
+A library embedding, a GUI or a retry loop calls `cmd_receive.receive(cfg)` again and again with ONE Config object.
+The property quantifies over the configuration *the user gave*; it must hold for the second and third receive exactly
+as for the first — a receive may not leave anything behind (in `args`, in the class, in the module) that changes what a
+later receive decides. -/
+
+/-- **nothing the receive path stores outlives one receive.**  Read off the source by the translator: no assignment
+    into the shared `args` object (`self.args.output_file = …`, `setattr`, an alias), no `global`, no class attribute, no
+    mutable default, no write into a module-level container anywhere in `receive()` / `Receiver`.  `receive` in the model
+    hands `args` back unchanged only while this holds. -/
+theorem no_state_outlives_a_receive : WV.Gen.Recv.outlives_receive = [] := by decide
+
+/-- **receive_leaves_args_unchanged.**  Whatever is offered, whatever the user answers, however the receive ends
+    (success, refusal, dropped connection, failing rename): the `args` object comes back as it went in. -/
+theorem receive_leaves_args_unchanged (a : Args) (fs : FS) (s : Step) : (receive a fs s).1 = a :=
+  receive_args a fs s
+
+/-- … and so after any number of receives -/
+theorem receives_leave_args_unchanged (a : Args) (fs : FS) (steps : List Step) : (receives a fs steps).1 = a := by
+  unfold receives
+  rw [foldl_recvStep_args]
+
+/-- **decision_independent_of_history.**  After ANY history of receives with the same `args` object, the next receive
+    is `receive a fs' s` — a function of the options the user gave (`a`, not something an earlier receive made of them),
+    of THIS offer and answer, and of the file system as it is now.  Nothing else of the history enters. -/
+theorem decision_independent_of_history (a : Args) (fs : FS) (hist : List Step) (s : Step) :
+    receives a fs (hist ++ [s]) =
+      (a, (receive a (receives a fs hist).2.1 s).2.1,
+       (receives a fs hist).2.2 ++ [(receive a (receives a fs hist).2.1 s).2.2]) := by
+  rw [receives_snoc]
+  unfold recvStep
+  rw [receives_leave_args_unchanged, receive_leaves_args_unchanged]
+
+/-- one receive never removes or replaces a directory … -/
+theorem never_removes_dir_receive (a : Args) (fs : FS) (s : Step) :
+    ∀ p, fs.isRealDir p = true → (receive a fs s).2.1.isRealDir p = true := by
+  unfold receive
+  cases s.offer with
+  | file n dr => exact never_removes_dir_offer_file fs _ _ n dr _ rfl
+  | dir m n dr ex => exact never_removes_dir_offer_directory fs _ _ m n dr ex _ rfl
+
+/-- … nor does any sequence of them -/
+theorem never_removes_dir_receives (a : Args) (fs : FS) (steps : List Step) :
+    ∀ p, fs.isRealDir p = true → (receives a fs steps).2.1.isRealDir p = true := by
+  have gen : ∀ (steps : List Step) (st : Args × FS × List (Except Err Path)),
+      KeepsDirs st.2.1 (steps.foldl recvStep st).2.1 := by
+    intro steps
+    induction steps with
+    | nil => intro st; exact KeepsDirs.refl _
+    | cons s rest ih =>
+      intro st
+      rw [List.foldl_cons]
+      exact KeepsDirs.trans (never_removes_dir_receive st.1 st.2.1 s) (ih (recvStep st s))
+  exact gen steps (a, fs, [])
+
+/-- **every receive of a sequence goes to the basename of ITS OWN offer, and never clobbers.**  Without `--output-file`,
+    after any history of receives (refused, failed or successful ones, file or directory offers, any names): if the next
+    receive succeeds, its destination is `cwd/basename(name of this offer)`, an ordinary name, and nothing of that name
+    existed when it started — in particular not what an earlier receive of the same process wrote or was refused for. -/
+theorem every_receive_dest_is_child (a : Args) (fs : FS) (hist : List Step) (s : Step)
+    (hn : Norm a.cwd) (hno : a.outputFile = [])
+    (h1 : fs.isRealDir a.cwd = true) (h2 : fs.isRealDir (abspath a.proc (join2 a.cwd dotdot)) = true)
+    (d : Path) (hd : (receive a (receives a fs hist).2.1 s).2.2 = .ok d) :
+    IsName (basename s.offer.name) ∧ d = a.cwd ++ '/' :: basename s.offer.name ∧
+      (receives a fs hist).2.1.pathExists d = false := by
+  have hc : CwdOK (receives a fs hist).2.1 { a with answer := s.answer } :=
+    ⟨hn, isRealDir_exists (never_removes_dir_receives a fs hist _ h1),
+     isRealDir_exists (never_removes_dir_receives a fs hist _ h2)⟩
+  unfold receive at hd
+  cases ho : s.offer with
+  | file n dr =>
+    rw [ho] at hd
+    obtain ⟨fs1, t, hh⟩ := offerFile_ok hd
+    rcases handle_file_no_output _ _ n hc hno fs1 _ hh with ⟨⟨e, he⟩, _⟩ | ⟨hnm, hex, hr, _⟩
+    · simp at he
+    · simp only [Except.ok.injEq, Prod.mk.injEq] at hr
+      exact ⟨hnm, hr.1, by rw [hr.1]; exact hex⟩
+  | dir m n dr ex =>
+    rw [ho] at hd
+    obtain ⟨fs1, hh⟩ := offerDirectory_ok hd
+    rcases (handle_directory_no_output _ _ m n hc hno fs1 _ hh).2 with ⟨e, he⟩ | ⟨hnm, hex, hr⟩
+    · simp at he
+    · simp only [Except.ok.injEq] at hr
+      exact ⟨hnm, hr, by rw [hr]; exact hex⟩
+
 /-! ### archives -/
 
 /-- **extract_inside.**  `_extract_file`'s guard accepts a member only if
@@ -773,5 +859,28 @@ example : CwdOK linkFS' witnessArgs := ⟨⟨by decide, by decide, by decide⟩,
 example : linkFS'.kind (witnessArgs.cwd ++ '/' :: basename "x/pipe".toList) = some .other := by decide
 example : (decideDest linkFS' witnessArgs "x/pipe".toList).2 = .error .transferRejected := by decide
 example : zipTarget "/home/u/d".toList "/../x//y".toList = .ok "/home/u/d/x/y".toList := by decide
+
+/-- a working directory with the user's own `notes.txt` -/
+def notesFS : FS :=
+  ⟨fun p => if p = "/home/u".toList ∨ p = "/home".toList then some .dir
+            else if p = "/home/u/notes.txt".toList then some .file else none⟩
+
+-- refused, then retried with the same `args`: the second offer goes to ITS basename, `notes.txt` stays the user's file
+example : (receives witnessArgs notesFS
+      [⟨[], .file "notes.txt".toList false⟩, ⟨[], .file "../../somewhere/else.txt".toList false⟩]).2.2
+    = [.error .transferError, .ok "/home/u/else.txt".toList] := by decide
+example : (receives witnessArgs notesFS
+      [⟨[], .file "notes.txt".toList false⟩, ⟨[], .file "../../somewhere/else.txt".toList false⟩]).2.1.kind
+        "/home/u/notes.txt".toList = some .file := by decide
+-- two transfers, file then directory: each lands at its own name
+example : (receives witnessArgs witnessFS
+      [⟨[], .file "first.txt".toList false⟩, ⟨[], .dir "zipfile/deflated".toList "x/second".toList false true⟩]).2.2
+    = [.ok "/home/u/first.txt".toList, .ok "/home/u/second".toList] := by decide
+-- … and the same name a second time is refused (the first receive made it an existing destination)
+example : (receives witnessArgs witnessFS
+      [⟨[], .file "first.txt".toList false⟩, ⟨[], .file "first.txt".toList false⟩]).2.2
+    = [.ok "/home/u/first.txt".toList, .error .transferError] := by decide
+example : witnessFS.isRealDir witnessArgs.cwd = true ∧
+    witnessFS.isRealDir (abspath witnessArgs.proc (join2 witnessArgs.cwd dotdot)) = true := by decide
 
 end WV.Props.C05
